@@ -35,6 +35,7 @@ type OblResult struct {
 	File     string
 	Model    string
 	Attempts []string
+	CrossConfirmed bool
 	gen      *Gen
 	dir      string
 	idx      int
@@ -144,6 +145,27 @@ func (eng *Engine) discharge(g *Gen, o *Obl, dir string, idx int, timeout time.D
 	res.File = file
 	t0 := time.Now()
 	defer func() { res.Time = time.Since(t0).Seconds() }()
+	defer func() {
+		// cross-check (thorough): a different solver family must not contradict the proof
+		if !allSolvers || o.probe || res.Status != "proved" {
+			return
+		}
+		var other Solver
+		if strings.HasPrefix(res.Solver, "z3-5.1.0") {
+			other = solvers[2] // z3 4.8.12
+		} else {
+			other = solvers[0]
+		}
+		a, _, d := runSolver(other, file, 20*time.Second)
+		res.Attempts = append(res.Attempts, fmt.Sprintf("cross-check %s:%s:%.2fs", other.Name, a, d))
+		switch a {
+		case "unsat":
+			res.CrossConfirmed = true
+		case "sat":
+			res.Status = "error"
+			res.Answer = "solver disagreement: " + res.Solver + " says unsat, " + other.Name + " says sat"
+		}
+	}()
 	try := func(s Solver, f string, to time.Duration) string {
 		ans, _, d := runSolver(s, f, to)
 		res.Attempts = append(res.Attempts, fmt.Sprintf("%s:%s:%.2fs", s.Name, ans, d))
